@@ -58,6 +58,10 @@ CLAIMED.update({
              note="Trusted: Lean kernel + standard axioms; hand-written decision model Iec.Dispatch tied by the differential of this check; decoder = Iec.Asdu.getElement (C01/C02). Partial: client command builders not modelled.", technique="Lean 4 proof (case analysis of the decision table) + exhaustive differential", design="6 C09"),
  "C17": dict(text="Partial (races not decided). Regenerated model: translate/locks.py turns every function of the six lock-using files into a lock skeleton (clang AST) on every run. Lean: exec_sound (the collecting interpreter covers every outcome of the path semantics Run, all branch outcomes and loop trip counts) => every_path_releases_what_it_took, no_path_faults for all generated skeletons (kernel evaluation); internal_lock_order_acyclic (rank certificate over held->waited edges through calls and thread joins); callbacks_outside_locks_partial (application callbacks are entered lock-free except at three recorded sites = known findings, reproduced on the real code). Failing-input search: threaded server/client under PRNG schedules behind the simulated HAL with semaphore monitors. Two genuine defects repaired (STOPDT double post; listener joining under openConnectionsLock).",
              note="Trusted: Lean kernel + standard axioms; translate/locks.py (syntax transcription); lock classes by static type+field; raw-message hook assumed not to re-enter the API. NOT decided: data-race freedom (no lockset model) - stated in DESIGN.md.", technique="Lean 4 proof (abstract-interpretation soundness + kernel evaluation on a model regenerated from source) + schedule search on the real code", design="6 C17"),
+ "C14": dict(text="Lean: every_tx_wellformed (every frame any role of the model writes is a well-formed FT 1.2 frame: the observation type carries the evidence, built by fixedFrame_wf / varFrame_wf / single_wf for all address widths 0..2, control octets, addresses, data), sendFixed_width / sendVar_width, varFrame_shape; receiving: secHeader_ok_sound (unbalanced slave: passes only with equal length octets, true length, correct checksum, own address or FC4 broadcast), secU_reject_is_silent (otherwise no transmission, no callback, no state but the link-state notification), parseBP_some_sound + *_drop_is_silent (balanced / master), var_roundtrip (user data extracted = user data encoded, any previous buffer content). Tie: differential of the real link_layer.c + serial_transceiver_ft_1_2.c over the simulated serial port vs Iec.Link101 incl. the 261-octet shared buffer, with corrupted / truncated / random frames; model-free frame-format oracle.",
+             note="Trusted: Lean kernel + standard axioms; hand-written model Iec.Link101 tied by the differential; stub application layers. Observation outside the statement's list: second start octet and end octet 16 are not checked by the library (a frame with only those damaged is accepted) - recorded in DESIGN.md, not claimed as violation.", technique="Lean 4 proof (well-formedness by construction + parser soundness + round trip) + differential correspondence", design="6 C14"),
+ "C15": dict(text="Lean: secU_repeat_not_delivered, secU_new_frame_delivered_once, secU_twice_once, secU_reset_restarts, secU_repeated_poll (unbalanced slave); bal_repeat, bal_reset_restarts (balanced secondary: a repetition is never delivered and is ACKed again iff the original was); priU_new_frame, priU_repeat, priU_repetition_identical, priU_gives_up, priU_reset_restarts(+_sm), priU_ack_of_reset_keeps_fcb (unbalanced master); bal_new_frame, bal_repeat_identical, bal_reset_restarts_fcb (balanced primary). Tie: same differential as C14 + model-free oracles (FCB of successive FCV frames per destination, identical repetition, FCB=1 after reset, no duplicate delivery, repeated request gets the previous response). Five genuine defects found by these oracles and repaired.",
+             note="Trusted: as C14. Partial: theorems are per step (transition lemmas and two-step corollaries), not one invariant over arbitrary loss patterns; the loss patterns themselves are exercised by the differential and by C16's end-to-end harness.", technique="Lean 4 proof (transition lemmas of the link-layer state machines) + differential correspondence + oracles", design="6 C15"),
 })
 
 NOT_YET = "not claimed yet in this round: the Lean model/theorems and the correspondence harness for this property are still being built (see DESIGN.md section 10 for the order); no other technique is substituted"
